@@ -7,13 +7,19 @@ def codes(x):
     return [ord(c) for c in x]
 
 
+def _int(x):
+    """positions are integers in every record handed to TLC: a missing / non-integer position becomes -1, which no
+    acceptor clause about spans accepts (a node without a proper span is then a rejected observation, not a type error)"""
+    return x if isinstance(x, int) and not isinstance(x, bool) else -1
+
+
 def proj_node(n):
     """Node -> dict in the shape of Parser.tla's node records."""
     import pylatexenc.latexnodes.nodes as N
     if n is None:
         return None
     ps = n.parsing_state
-    d = dict(k=None, pos=n.pos, end=n.pos_end, name=[], delims=[], disp="", args=[], body=[], hasbody=False,
+    d = dict(k=None, pos=_int(n.pos), end=_int(n.pos_end), name=[], delims=[], disp="", args=[], body=[], hasbody=False,
              math=bool(ps.in_math_mode) if ps is not None else None,
              mdelim=codes((ps.math_mode_delimiter or '') if ps is not None else ''), post=0)
     if isinstance(n, N.LatexCharsNode):
